@@ -26,6 +26,8 @@ CAT = {
     'RaiseUnnamed': (I1, 'RaiseUnnamed', 's', 's', 'raise', 'Err.Unnamed', 1),
     'RaiseBadName': (I1, 'RaiseBadName', '', '', 'raise', 'Err.BadName', 1),
     'RaiseNul': (I1, 'RaiseNul', '', '', 'raise', 'Err.Nul', 1),
+    # both at once: a name that is no DBus error name and a text that cannot go on the wire as it is
+    'RaiseBadNameNul': (I1, 'RaiseBadNameNul', '', '', 'raise', 'Err.BadNameNul', 1),
     'Unenc': (I1, 'Unenc', '', 'u', 'unencodable', 'Err.Unencodable', 1),
     'Arity': (I1, 'Arity', '', 'us', 'unencodable', 'Err.Unencodable', 1),
     'Caller': (I1, 'Caller', '', 's', 'value', 'Caller', 1),
@@ -111,6 +113,10 @@ def build():
         def dbus_RaiseBadName(self):
             self.log('RaiseBadName', (), None)
             raise BadNameError('worse')
+
+        def dbus_RaiseBadNameNul(self):
+            self.log('RaiseBadNameNul', (), None)
+            raise BadNameError('wor\0se')
 
         def dbus_RaiseNul(self):
             self.log('RaiseNul', (), None)
@@ -205,6 +211,11 @@ class ObjectsDriver:
         ppm.sender = ':1.3'
         self.h.handleMethodCallMessage(ppm)
         self.h.exportObject(self.o)
+        # the same object is exported on a second connection of the process as well, afterwards: replies still go out
+        # on the connection the call came in on
+        self.conn2 = Conn()
+        self.h2 = objects.DBusObjectHandler(self.conn2)
+        self.h2.exportObject(self.o)
         del self.conn.sent[:]
         self.calls = []          # (call record, serial, sender, arg)
         self.seen = 0
@@ -268,6 +279,8 @@ class ObjectsDriver:
                 return 'Err.Unnamed'
             if n == 'org.txdbus.InvalidErrorName' and text and text.endswith('worse'):
                 return 'Err.BadName'
+            if n == 'org.txdbus.InvalidErrorName' and text and 'wor' in text and text.endswith('se') and '\0' not in text:
+                return 'Err.BadNameNul'
             if n == 'org.txdbus.PythonException.Exception' and text and 'nu' in text and text.endswith('l') and '\0' not in text:
                 return 'Err.Nul'
             key = find_key(c)
@@ -316,6 +329,9 @@ class ObjectsDriver:
             ran.append(n)
         if stray:
             ran.append(-len(stray))
+        wrong = [m for m in self.conn2.sent if m._messageType in (2, 3)]
+        if wrong:
+            ran.append(-1000 - len(wrong))         # replies that left on the other connection
         return {'ran': tuple(ran), 'open': frozenset(self.deferreds), 'replies': tuple(tuple(replies[i]) for i in sorted(replies))}
 
 
